@@ -32,6 +32,7 @@ type Solver struct {
 	timeoutMs int
 	log       *os.File
 	useLogic  bool
+	logic     string // QF_BV, or QF_FPBV for harnesses that use the floating-point fragment
 }
 
 func solverArgv(kind string, timeoutMs int) []string {
@@ -44,11 +45,14 @@ func solverArgv(kind string, timeoutMs int) []string {
 	return []string{"z3", "-in"}
 }
 
-func newSolver(kind string, timeoutMs int) *Solver {
+func newSolver(kind string, timeoutMs int, logic string) *Solver {
 	if kind == "" {
 		kind = "z3"
 	}
-	s := &Solver{kind: kind, timeoutMs: timeoutMs, useLogic: kind == "z3"}
+	s := &Solver{kind: kind, timeoutMs: timeoutMs, useLogic: kind == "z3", logic: logic}
+	if s.logic == "" {
+		s.logic = "QF_BV"
+	}
 	s.start()
 	return s
 }
@@ -84,10 +88,8 @@ func (s *Solver) preamble() {
 		s.send("(set-option :produce-models true)")
 		s.send(fmt.Sprintf("(set-option :timeout %d)", s.timeoutMs))
 	}
-	if s.useLogic {
-		s.send("(set-logic QF_BV)")
-	} else if s.kind == "cvc5" {
-		s.send("(set-logic QF_BV)")
+	if s.useLogic || s.kind == "cvc5" || s.logic != "QF_BV" {
+		s.send("(set-logic " + s.logic + ")")
 	}
 }
 
